@@ -60,6 +60,8 @@ def main():
             if os.path.exists(cov):
                 d = json.load(open(cov))
                 print("   distribution:", {k: v for k, v in d.get("distribution", {}).items() if k.startswith("failure")})
+                if os.environ.get("TRYMUT_KEEP"):
+                    shutil.copyfile(cov, os.path.join(os.environ["TRYMUT_KEEP"], "cov_%s.json" % s))
                 os.remove(cov)
     finally:
         sh("git -C /repo worktree remove --force %s" % wt)
